@@ -88,9 +88,6 @@ Lemma ib_map_set_nth {A B} (f : A -> B) (i : nat) (x : A) (l : list A) :
   map f (set_nth i x l) = set_nth i (f x) (map f l).
 Proof. revert i. induction l as [|y t IH]; intros [|i]; cbn; auto. f_equal. apply IH. Qed.
 
-Lemma ib_firstn_skipn_id {A} (l : list A) : firstn 1 l ++ skipn 1 l = l.
-Proof. apply firstn_skipn. Qed.
-
 (* ---- index_of / neighbour_index -------------------------------------------------------------- *)
 Lemma ib_index_of_lt x l i : index_of x l = Some i -> i < length l.
 Proof.
@@ -1045,3 +1042,14 @@ Qed.
 Corollary run_wfb_build_empty ops : forallb is_build_op ops = true ->
   run_wfb empty_store ops = after_root false ops.
 Proof. apply run_wfb_build_blank. apply blank_empty. Qed.
+
+(* non-vacuity: a building run from the empty store with rejected and accepted operations; the
+   accepted/rejected flags and the checker's verdicts are as the theorems above predict *)
+Example build_run_example :
+  let ops := [AddChild 1 [2; 2] 1 0 0; AddRoot 0 [2; 3; 2]; AddRoot 5 [1]; AddChild 1 [2; 2] 1 0 0;
+              AddChild 2 [3; 2] 0 0 1; AddChild 3 [7; 2] 0 0 1] in
+  snd (run empty_store ops) = [false; true; false; true; true; false] /\
+  run_wfb empty_store ops = after_root false ops /\
+  add_child_wire (fst (run empty_store [AddRoot 0 [2; 3; 2]])) 0 0 = 0 /\
+  add_child_fresh (fst (run empty_store [AddRoot 0 [2; 3; 2]])) [2; 2] 1 = [3].
+Proof. vm_compute. repeat split. Qed.
